@@ -386,49 +386,153 @@ def gen_c20_scans(ctx):
                 bad.append('%s:%d %s' % (mn, n.lineno, norm_src(n)))
     # aliases: a name bound (assignment, for target, comprehension target) to an expression that reads `.ranking` (or
     # another such name) denotes data shared with the ElectionProfile; it must not be mutated in place either
-    MUTATORS = {'append', 'remove', 'pop', 'add', 'extend', 'insert', 'sort', 'reverse', 'clear', 'update', 'discard'}
-    for mn in RULE_MODULES + ['droop.election']:
-        m = repo.module(mn)
-        for fn in [f for f in repo.all_functions() if f.module is m]:
-            tainted = set()
+    MUTATORS = {'append', 'remove', 'pop', 'add', 'extend', 'insert', 'sort', 'reverse', 'clear', 'update', 'discard', 'popitem',
+                'setdefault', '__setitem__', '__delitem__'}
+    SHARED_ATTRS = ('ranking', 'ballotLines', 'ballotLinesEqual')
 
-            def reads_shared(e):
-                for x in ast.walk(e):
-                    if isinstance(x, ast.Attribute) and x.attr in ('ranking', 'ballotLines', 'ballotLinesEqual'):
-                        return True
-                    if isinstance(x, ast.Name) and x.id in tainted:
-                        return True
+    def profile_expr(e):
+        "an expression that denotes the ElectionProfile (self.electionProfile, E.electionProfile, a local called profile...)"
+        src = norm_src(e)
+        return src.endswith('electionProfile') or src in ('profile', 'electionProfile')
+    # inter-procedural step: parameters that receive data shared with the profile (an argument that reads it is passed in);
+    # callees are resolved by bare method / function name within the package
+    by_name = {}
+    for f in repo.all_functions():
+        by_name.setdefault(f.name, []).append(f)
+    param_taint = {}        # qualname -> set of tainted parameter names
+
+    def analyse(fn, mn, report):
+        tainted = set(param_taint.get(fn.qualname, ()))
+        obj_tainted = set()     # names that denote a ballot-line OBJECT of the profile (attribute stores through them count)
+
+        def mentions_lines(e):
+            for x in ast.walk(e):
+                if isinstance(x, ast.Attribute) and x.attr in ('ballotLines', 'ballotLinesEqual'):
+                    return True
+                if isinstance(x, ast.Name) and x.id in obj_tainted:
+                    return True
+            return False
+
+        def constructs(e):
+            "a call of a class (capitalised name): a new object, not an alias"
+            if isinstance(e, ast.Call):
+                nm = e.func.attr if isinstance(e.func, ast.Attribute) else (e.func.id if isinstance(e.func, ast.Name) else '')
+                return nm[:1].isupper() or nm in ('list', 'tuple', 'sorted', 'set', 'len', 'dict', 'int', 'sum', 'str', 'min', 'max')
+            return isinstance(e, (ast.Compare, ast.BoolOp, ast.BinOp, ast.Constant, ast.JoinedStr))
+
+        VIEWS = ('items', 'values', 'keys', 'get', 'setdefault', 'pop', '__getitem__')
+
+        def reads_shared(e):
+            """does the value of e (possibly) alias data of the profile?  The result of an arbitrary call is taken to be fresh
+            (only views / lookups on a shared receiver hand out shared data)"""
+            if isinstance(e, ast.Attribute):
+                if e.attr in SHARED_ATTRS or (e.attr == 'options' and profile_expr(e.value)):
+                    return True
+                return reads_shared(e.value)
+            if isinstance(e, ast.Name):
+                return e.id in tainted
+            if isinstance(e, ast.Subscript):
+                return reads_shared(e.value)
+            if isinstance(e, ast.Call):
+                if isinstance(e.func, ast.Attribute) and e.func.attr in VIEWS:
+                    return reads_shared(e.func.value) or any(reads_shared(a) for a in e.args)
+                if isinstance(e.func, ast.Name) and e.func.id in ('enumerate', 'reversed', 'zip', 'iter', 'next', 'filter'):
+                    return any(reads_shared(a) for a in e.args)
                 return False
+            if isinstance(e, (ast.GeneratorExp, ast.ListComp, ast.SetComp)):
+                return any(reads_shared(g.iter) for g in e.generators)
+            if isinstance(e, ast.IfExp):
+                return reads_shared(e.body) or reads_shared(e.orelse)
+            if isinstance(e, ast.BoolOp):
+                return any(reads_shared(v) for v in e.values)
+            if isinstance(e, (ast.Tuple, ast.List)):
+                return any(reads_shared(v) for v in e.elts)
+            if isinstance(e, ast.Starred):
+                return reads_shared(e.value)
+            return False
 
-            def copies(e):
-                "list(x), tuple(x), sorted(x), x[:] used as a value, comprehensions: a new container"
-                return isinstance(e, (ast.ListComp, ast.SetComp, ast.DictComp, ast.GeneratorExp, ast.Tuple, ast.List, ast.Compare, ast.BoolOp)) or \
-                    (isinstance(e, ast.Call) and isinstance(e.func, ast.Name) and e.func.id in ('list', 'tuple', 'sorted', 'set', 'len', 'dict', 'int', 'sum'))
-            for _ in range(3):
-                for n in ast.walk(fn.node):
-                    if isinstance(n, ast.Assign) and reads_shared(n.value) and not copies(n.value):
-                        for t in n.targets:
-                            for x in ast.walk(t):
-                                if isinstance(x, ast.Name) and isinstance(x.ctx, ast.Store):
-                                    tainted.add(x.id)
-                    if isinstance(n, (ast.For, ast.comprehension)) and reads_shared(n.iter):
-                        for x in ast.walk(n.target):
-                            if isinstance(x, ast.Name):
-                                tainted.add(x.id)
+        def copies(e):
+            "list(x), tuple(x), sorted(x), x[:] used as a value, comprehensions: a new container"
+            return isinstance(e, (ast.ListComp, ast.SetComp, ast.DictComp, ast.GeneratorExp, ast.Tuple, ast.List, ast.Compare, ast.BoolOp)) or \
+                (isinstance(e, ast.Call) and isinstance(e.func, ast.Name) and e.func.id in ('list', 'tuple', 'sorted', 'set', 'len', 'dict', 'int', 'sum'))
+        for _ in range(3):
             for n in ast.walk(fn.node):
-                tgts = n.targets if isinstance(n, ast.Assign) else ([n.target] if isinstance(n, ast.AugAssign) else [])
-                for t in tgts:
-                    if isinstance(t, ast.Subscript) and isinstance(t.value, ast.Name) and t.value.id in tainted:
-                        bad.append('%s:%d in-place store through alias %s' % (mn, n.lineno, norm_src(t)))
-                if isinstance(n, ast.Call) and isinstance(n.func, ast.Attribute) and n.func.attr in MUTATORS \
-                        and isinstance(n.func.value, ast.Name) and n.func.value.id in tainted:
-                    bad.append('%s:%d %s' % (mn, n.lineno, norm_src(n)))
-                if isinstance(n, ast.Delete):
+                if isinstance(n, ast.Assign) and reads_shared(n.value) and not copies(n.value):
                     for t in n.targets:
-                        if isinstance(t, ast.Subscript) and isinstance(t.value, ast.Name) and t.value.id in tainted:
-                            bad.append('%s:%d del through alias' % (mn, n.lineno))
-    scan(ctx, P, 'droop/election.py + rules', 'profile-read-only', 'Election and the rules only read the ElectionProfile (rankings are shared, never written)',
-         not bad, detail='; '.join(bad))
+                        for x in ast.walk(t):
+                            if isinstance(x, ast.Name) and isinstance(x.ctx, ast.Store):
+                                tainted.add(x.id)
+                if isinstance(n, (ast.For, ast.comprehension)) and reads_shared(n.iter):
+                    for x in ast.walk(n.target):
+                        if isinstance(x, ast.Name):
+                            tainted.add(x.id)
+                # ballot-line objects: loop targets over the lines themselves, and names assigned from expressions built on them
+                if isinstance(n, (ast.For, ast.comprehension)) and mentions_lines(n.iter) and \
+                        not isinstance(n.iter, (ast.GeneratorExp, ast.ListComp)):
+                    for x in ast.walk(n.target):
+                        if isinstance(x, ast.Name):
+                            obj_tainted.add(x.id)
+                if isinstance(n, ast.Assign) and mentions_lines(n.value) and not constructs(n.value) and \
+                        not isinstance(n.value, ast.Attribute):
+                    for t in n.targets:
+                        if isinstance(t, ast.Name):
+                            obj_tainted.add(t.id)
+        changed = False
+        for n in ast.walk(fn.node):
+            tgts = n.targets if isinstance(n, ast.Assign) else ([n.target] if isinstance(n, ast.AugAssign) else [])
+            for t in tgts:
+                if isinstance(t, ast.Subscript) and isinstance(t.value, ast.Name) and t.value.id in tainted:
+                    report('%s:%d in-place store through alias %s' % (mn, n.lineno, norm_src(t)))
+                # an attribute of a shared object (a ballot line of the profile) assigned through an alias
+                if isinstance(t, ast.Attribute) and isinstance(t.value, ast.Name) and t.value.id in obj_tainted and t.value.id != 'self':
+                    report('%s:%d attribute of a shared object written through alias %s' % (mn, n.lineno, norm_src(t)))
+            if isinstance(n, ast.Call) and isinstance(n.func, ast.Attribute) and n.func.attr in MUTATORS \
+                    and isinstance(n.func.value, ast.Name) and n.func.value.id in tainted:
+                report('%s:%d %s' % (mn, n.lineno, norm_src(n)))
+            if isinstance(n, ast.Delete):
+                for t in n.targets:
+                    if isinstance(t, ast.Subscript) and isinstance(t.value, ast.Name) and t.value.id in tainted:
+                        report('%s:%d del through alias' % (mn, n.lineno))
+            # shared data handed to another function of the package: its parameter is tainted there
+            if isinstance(n, ast.Call):
+                cname = n.func.attr if isinstance(n.func, ast.Attribute) else (n.func.id if isinstance(n.func, ast.Name) else None)
+                cands = by_name.get(cname, []) if cname else []
+                if len(cands) == 1 and not copies(n):
+                    g = cands[0]
+                    params = [a.arg for a in g.node.args.args]
+                    if params and params[0] in ('self', 'cls') and isinstance(n.func, ast.Attribute):
+                        params = params[1:]
+                    for i, a in enumerate(n.args):
+                        if i < len(params) and reads_shared(a) and not copies(a):
+                            cur = param_taint.setdefault(g.qualname, set())
+                            if params[i] not in cur:
+                                cur.add(params[i])
+                                changed = True
+                    for kw in n.keywords:
+                        if kw.arg in params and reads_shared(kw.value) and not copies(kw.value):
+                            cur = param_taint.setdefault(g.qualname, set())
+                            if kw.arg not in cur:
+                                cur.add(kw.arg)
+                                changed = True
+        return changed
+    start = [f for mn in RULE_MODULES + ['droop.election'] for f in repo.all_functions() if f.module is repo.module(mn)]
+    for _round in range(4):
+        ch = False
+        for fn in start + [f for f in repo.all_functions() if f.qualname in param_taint and f not in start]:
+            ch |= analyse(fn, fn.module.name if hasattr(fn.module, 'name') else '?', lambda x: None)
+        if not ch:
+            break
+    seen = set()
+
+    def rep(x):
+        if x not in seen:
+            seen.add(x)
+            bad.append(x)
+    for fn in start + [f for f in repo.all_functions() if f.qualname in param_taint and f not in start]:
+        analyse(fn, getattr(fn.module, 'name', None) or fn.qualname.rsplit('.', 2)[0], rep)
+    scan(ctx, P + ['C17', 'C08'], 'droop/election.py + rules', 'profile-read-only',
+         'Election, the rules and whatever they hand profile data to only read the ElectionProfile (rankings, ballot lines and the '
+         'ballot-file option list are shared with it, never written)', not bad, detail='; '.join(bad))
 
 
 # --------------------------------------------------------------------------------------------- C09 / C07 single-writer scans
@@ -629,6 +733,36 @@ def gen_c19_scans(ctx):
                     and n.func.attr != 'append':
                 bad.append('%s:%d .%s()' % (mn, n.lineno, n.func.attr))
     scan(ctx, P, 'droop/**/*.py', 'actions-append-only', "record['actions'] is created once and only ever appended to (so an interrupted record is a prefix)",
+         not bad, '; '.join(bad))
+    # nothing in the package can swallow the interrupt: a KeyboardInterrupt raised anywhere during a count must reach the
+    # driver.  Handlers that would catch it: bare `except:`, BaseException, KeyboardInterrupt (unless they re-raise as their
+    # last statement); also contextlib.suppress and a `return`/`break`/`continue` inside a `finally`
+    bad = []
+    for mn, m in repo.modules.items():
+        if mn in ('Droop',):
+            continue
+        for n in ast.walk(m.tree):
+            if isinstance(n, ast.ExceptHandler):
+                names = []
+                if n.type is None:
+                    names = ['<bare>']
+                else:
+                    for t in (n.type.elts if isinstance(n.type, ast.Tuple) else [n.type]):
+                        names.append(norm_src(t).rsplit('.', 1)[-1])
+                if any(x in ('<bare>', 'BaseException', 'KeyboardInterrupt') for x in names):
+                    last = n.body[-1] if n.body else None
+                    if not (isinstance(last, ast.Raise) and last.exc is None):
+                        bad.append('%s:%d except %s' % (mn, n.lineno, ','.join(names)))
+            if isinstance(n, ast.Try) and n.finalbody:
+                for x in n.finalbody:
+                    for y in ast.walk(x):
+                        if isinstance(y, (ast.Return, ast.Break, ast.Continue)):
+                            bad.append('%s:%d %s inside finally' % (mn, y.lineno, type(y).__name__.lower()))
+            if isinstance(n, ast.Call) and norm_src(n.func).endswith('suppress'):
+                bad.append('%s:%d contextlib.suppress' % (mn, n.lineno))
+    scan(ctx, P, 'droop/**/*.py', 'interrupt-not-swallowed',
+         'no handler in the package can swallow a KeyboardInterrupt (no bare except / BaseException / KeyboardInterrupt handler that '
+         'does not re-raise, no return inside finally, no suppress): an interrupt raised anywhere during a count reaches the driver',
          not bad, '; '.join(bad))
     # determinism of count(): no clock, randomness, environment or I/O in the counting path
     bad = []
@@ -853,6 +987,32 @@ def gen_c10_scans(ctx):
                 if 'multiplier' in norm_src(n.value):
                     bad.append('%s:%d %s' % (mn, n.lineno, norm_src(n)[:70]))
     scan(ctx, P, 'droop/rules/*.py', 'weight-independent-of-multiplier', 'a ballot\'s new weight never depends on its multiplier', not bad, '; '.join(bad))
+    # the number of papers a line stands for only ever MULTIPLIES an (already rounded) per-paper value or is summed: it never
+    # enters a division or another rounding operation, so m papers on one line and the same papers on several lines are credited alike
+    bad = []
+    for mn in RULE_MODULES:
+        m = repo.module(mn)
+        pm = {}
+        for n in ast.walk(m.tree):
+            for c in ast.iter_child_nodes(n):
+                pm[id(c)] = n
+        for n in ast.walk(m.tree):
+            is_m = (isinstance(n, ast.Attribute) and n.attr == 'multiplier') or (isinstance(n, ast.Name) and n.id == 'multiplier')
+            if not is_m or not isinstance(getattr(n, 'ctx', None), ast.Load):
+                continue
+            p, child = pm.get(id(n)), n
+            while p is not None and not isinstance(p, ast.stmt):
+                if isinstance(p, ast.BinOp) and isinstance(p.op, (ast.Div, ast.FloorDiv, ast.Mod, ast.Pow)):
+                    bad.append('%s:%d %s' % (mn, n.lineno, norm_src(p)[:70]))
+                    break
+                if isinstance(p, ast.Call) and child is not p.func and isinstance(p.func, ast.Attribute) and \
+                        p.func.attr in ('div', 'muldiv', 'mul', 'min', 'max'):
+                    bad.append('%s:%d %s' % (mn, n.lineno, norm_src(p)[:70]))
+                    break
+                child, p = p, pm.get(id(p))
+    scan(ctx, P, 'droop/rules/*.py', 'multiplier-only-multiplies',
+         'the number of papers of a ballot line only multiplies per-paper values or is summed; it never enters a division or a rounding operation',
+         not bad, '; '.join(bad))
 
 
 def gen_c11_scans(ctx):
@@ -871,6 +1031,46 @@ def gen_c11_scans(ctx):
                     any(isinstance(op, (ast.Lt, ast.Gt, ast.LtE, ast.GtE)) for op in n.ops):
                 bad.append('%s:%d ordering comparison on cid' % (mn, n.lineno))
     scan(ctx, P, 'droop/rules/*.py', 'no-id-order', 'candidate ids are compared for equality only, never ordered', not bad, '; '.join(bad))
+    # a collection of candidates that carries no declared order (a selection without order=, a comprehension over one, a set)
+    # is in candidate-id order by accident of the implementation: taking its first k, its i-th or a slice of it would let the
+    # numbering decide.  (Single-element pop() after a len == 1 test, membership, len, iteration over ALL of it are fine.)
+    UNORDERED_SEL = {'hopeful', 'elected', 'defeated', 'pending', 'notpending', 'eligible', 'withdrawn', 'select'}
+    bad = []
+    for mn in RULE_MODULES:
+        m = repo.module(mn)
+        for fn in [f_ for f_ in repo.all_functions() if f_.module is m]:
+            unordered = set()
+
+            def is_unordered(e):
+                if isinstance(e, ast.Call) and isinstance(e.func, ast.Attribute) and e.func.attr in UNORDERED_SEL:
+                    kws = {k.arg for k in e.keywords}
+                    return 'order' not in kws and len(e.args) < 2
+                if isinstance(e, ast.Name):
+                    return e.id in unordered
+                if isinstance(e, (ast.ListComp, ast.GeneratorExp, ast.SetComp)):
+                    return any(is_unordered(g.iter) for g in e.generators)
+                if isinstance(e, ast.Call) and isinstance(e.func, ast.Name) and e.func.id in ('list', 'tuple', 'set', 'frozenset'):
+                    return bool(e.args) and is_unordered(e.args[0])
+                if isinstance(e, ast.BinOp) and isinstance(e.op, ast.Add):
+                    return is_unordered(e.left) or is_unordered(e.right)
+                if isinstance(e, ast.Subscript) and isinstance(e.slice, ast.Slice):
+                    return is_unordered(e.value)
+                return False
+            for _ in range(3):
+                for n in own_walk(fn.node):
+                    if isinstance(n, ast.Assign) and len(n.targets) == 1 and isinstance(n.targets[0], ast.Name):
+                        if is_unordered(n.value):
+                            unordered.add(n.targets[0].id)
+            for n in own_walk(fn.node):
+                if isinstance(n, ast.Subscript) and is_unordered(n.value):
+                    bad.append('%s:%d %s' % (mn, n.lineno, norm_src(n)[:60]))
+                if isinstance(n, ast.Call) and isinstance(n.func, ast.Name) and n.func.id == 'next' and n.args and \
+                        isinstance(n.args[0], ast.Call) and norm_src(n.args[0].func) == 'iter' and is_unordered(n.args[0].args[0]):
+                    bad.append('%s:%d %s' % (mn, n.lineno, norm_src(n)[:60]))
+    scan(ctx, P + ['C07'], 'droop/rules/*.py', 'unordered-never-indexed',
+         'a collection of candidates without a declared order (selection without order=, comprehension over one) is never indexed or '
+         'sliced: which candidates are taken is never decided by their numbering',
+         not bad, '; '.join(bad))
     f, src = _func_src(repo, 'droop.candidate.Candidate.__init__')
     scan(ctx, P, 'droop.candidate.Candidate.__init__', 'withdrawn-state', "a withdrawn candidate starts in state 'withdrawn' (never hopeful)",
          f is not None and "self.state = 'withdrawn' if isWithdrawn else 'hopeful'" in src, shape=True)
@@ -1185,7 +1385,7 @@ GENERATORS = {
     'C12': [gen_c12_scans],
     'C13': [gen_c13_scans],
     'C14': [gen_c14_scans],
-    'C17': [gen_c17_scans],
+    'C17': [gen_c17_scans, gen_c20_scans],
     'C09': [gen_c09_scans, gen_select_conformance, gen_lean_card],
     'C01': [gen_select_conformance, gen_lean_card],
     'C18': [gen_c18_scans],
@@ -1195,7 +1395,7 @@ GENERATORS = {
     'C10': [gen_c10_scans],
     'C11': [gen_c11_scans, gen_select_conformance, gen_rounds_protocol],
     'C03': [gen_c03_scans, gen_rounds_protocol],
-    'C08': [gen_c08_scans],
+    'C08': [gen_c08_scans, gen_c20_scans],
     'C07': [gen_c07_scans, gen_select_conformance],
     'C06': [gen_c09_scans, gen_c03_scans],
     'C02': [gen_c09_scans],
